@@ -91,6 +91,24 @@ T = {
  'C08-6': ('_exit() remembers the code only if truthy', 'stop(0) / SystemExit(0) / other falsy codes from a handler'),
  'C09-5': ('datetime deadline converted with timedelta.seconds', 'Timer with a datetime whose sub-second part is below now\'s, more than a day away, or in the past'),
  'C09-6': ('Timer._on_generate_events returns early when time_left == 0', 'timer due in an iteration in which the event queue is not empty when generate_events is dispatched'),
+ 'C10-5': ('Poll._updateRegistration uses poll.modify() for numbers it already knows (tested by number, not by object)', 'socket closed while Poll still knows it, new socket gets the same fd number and is registered before the next poll round'),
+ 'C10-6': ('Select re-checks membership against sets built before select() blocks', 'another thread discards / removes a ready descriptor while the poller thread is blocked in select() (outside the sequential histories C10 quantifies over)'),
+ 'C11-5': ('File._write measures the remainder of a partial write in characters of the str payload instead of encoded bytes', 'File endpoint, str payload with multi-byte characters, os.write accepts only part of it'),
+ 'C11-6': ('Server._write keeps sending after a partial send; the untouched except clause re-queues the whole payload', 'partial send followed by a transient errno inside one _write notification'),
+ 'C12-5': ('partial sends re-register the writer (duplicate entries; discard removes one)', 'peer stops reading so that a send is partial, connection ends while surplus registrations exist (EPoll/Poll)'),
+ 'C12-6': ('Server._read discards the socket from the poller at EOF (drops the write interest too)', 'output queued across rounds, peer half-closes, no further write: deferred close never completes, no disconnect'),
+ 'C13-5': ('chunked _parse_body returns 0 ("message complete") when a read ends exactly after a chunk\'s closing CRLF', 'cut exactly after the CRLF that ends a chunk\'s data with more of the message to come'),
+ 'C13-6': ('leading-CRLF skipping looks at the piece that just arrived instead of the accumulated line', 'cut exactly between the first line\'s text and its CRLF, both CRLF bytes in the next read'),
+ 'C14-5': ('httperror sets close only for codes outside 3xx; the path guard keeps its finished parser', 'non-normalised path answered 301 without Connection: close, then any further bytes on the connection'),
+ 'C14-6': ('505 check rp[0] != sp[0] becomes rp[0] > sp[0]', 'valid request line with major version below 1 and a Host header'),
+ 'C15-5': ('socket marked as closing before Response.prepare() has decided to close', 'HTTP/1.0 keep-alive request for an unknown-length body and the client\'s next request arriving in mid-stream (pipelining: outside C15\'s request sequences, and the unchanged tree mis-serves pipelined requests too)'),
+ 'C15-6': ('leading empty items of a streamed body are written as chunks (0-length = last-chunk)', 'streamed/WSGI generator body whose first item is empty, HTTP/1.1 chunked'),
+ 'C17-5': ('text fragments decoded as they arrive', 'fragmented text message with a fragment boundary inside a multi-byte character'),
+ 'C17-6': ('receive buffer only cleared when a data message completes', 'read boundary inside a ping/pong/non-final fragment that ends exactly at the end of the completing read, more frames afterwards'),
+ 'C18-5': ('Line keeps LF-less reads in one list per component instead of per socket', 'server mode: a read without LF from socket A, then a read from socket B before A\'s terminator'),
+ 'C18-6': ('parsemsg drops an empty trailing argument', 'IRC message whose last argument is the empty string'),
+ 'C19-5': ('load_event keeps a string `notify` (event name to notify with)', 'hostile call packet whose notify string cannot be a type name (NUL, lone surrogate) and a handler that returns a value'),
+ 'C19-6': ('fire-and-forget fast path send_nowait() bypasses the send firewall', 'server side, send firewall that rejects the event, push without result'),
  'C18-2': ('_check_args rewritten with regexes using $ (matches before a trailing newline)', 'command / prefix / argument ending in a single LF'),
 }
 rows = []
@@ -105,6 +123,12 @@ for sid in sorted(os.listdir(os.path.join(V, 'seeded'))):
     if sid in CB:
         m['caught_by_property'] = CB[sid]
         m['caught_by'] = CB[sid] + ' quick'
+    if sid == 'C10-6':
+        m['expect'] = 'missed'
+        m['caught_by'] = 'not decided: needs a second thread inside the poller; C10 quantifies over sequential histories'
+    if sid == 'C15-5':
+        m['expect'] = 'missed'
+        m['caught_by'] = 'not decided: needs a pipelined request; C15 quantifies over requests that follow the previous response'
     if sid in ('C07-5', 'C07-6'):
         m['expect'] = 'missed'
         m['caught_by'] = 'not decided: needs a second thread inside register(); C07 quantifies over sequential histories'
